@@ -46,12 +46,14 @@ Ev ==
          LET good == /\ SeqToSet(e.registry) = sent /\ e.connected = Cardinality(sent)
                      /\ e.downloads = 0 /\ e.uploads = 0
              agree == registry = SeqToSet(e.registry) /\ connected = e.connected /\ inflight = e.downloads /\ upl = e.uploads
-         IN /\ (~good => Report("VIOL", e, [sig |-> "not-back-to-baseline", registry |-> e.registry, sentinels |-> sent,
+             busy == "busy" \in DOMAIN e /\ e.busy   \* the harness gave up waiting while the server was still working: no verdict
+         IN /\ (~good /\ busy => Report("DRIFT", e, [sig |-> "still-working-at-the-patience-cap"]))
+            /\ (~good /\ ~busy => Report("VIOL", e, [sig |-> "not-back-to-baseline", registry |-> e.registry, sentinels |-> sent,
                                            connected |-> e.connected, downloads |-> e.downloads, uploads |-> e.uploads]))
-            /\ (~agree => Report("DRIFT", e, [modelRegistry |-> registry, modelConnected |-> connected, modelDl |-> inflight, modelUl |-> upl]))
+            /\ (~agree /\ ~busy => Report("DRIFT", e, [modelRegistry |-> registry, modelConnected |-> connected, modelDl |-> inflight, modelUl |-> upl]))
             /\ UNCHANGED <<cvars, sent, upl>>
     [] e.op = "userlist" ->
-         /\ (~(e.ok /\ Len(e.names) = 2) => Report("VIOL", e, [sig |-> "user-list-not-back-to-sentinels", ok |-> e.ok, n |-> Len(e.names)]))
+         /\ (~(e.ok /\ Len(e.names) = 2) /\ ~("busy" \in DOMAIN e /\ e.busy) => Report("VIOL", e, [sig |-> "user-list-not-back-to-sentinels", ok |-> e.ok, n |-> Len(e.names)]))
          /\ UNCHANGED <<cvars, sent, upl>>
     [] e.op = "exit" ->
          /\ alive' = (e.code = 0 /\ e.fatal = "")
